@@ -84,7 +84,8 @@ impl DealerSocketOutgoingProcessor {
         );
 
         match self.outgoing_orchestrator.route_message(zmtp_frames_for_logical_message, false).await {
-          Ok(()) => {}
+          // Re-arm: a Notify holds at most one permit, so keep draining until the queue is seen empty.
+          Ok(()) => self.queue_activity_notifier.notify_one(),
           Err((returned, _)) => {
             tracing::debug!(
               "[DealerProc {}] route_message failed (all peers full or no peers). Re-queuing.",
